@@ -742,3 +742,18 @@ PROPS["E05"] = dict(
     rule="seeded random maps (three construction routes) and index documents (also flattened); one session per iterator kind; distinct = distinct (kind, items, steps); non-trivial = at least 2 items",
     assumptions=COMMON_ASSUMPTIONS,
 )
+
+PROPS["E06"] = dict(
+    level="exploration",
+    level_text="extension: builder-side renames and shortcuts (SourceMapBuilder::set_source, strip_prefixes, add_token) inside C13's interning machine, specified as found: the state keeps the strings sources were interned under (keys) apart from their current names (srcs); named deviation RenamedSourceStaysInternedUnderItsOldName",
+    level_note="beyond the listed properties; not registered in MANIFEST.json",
+    technique="TLA+ as-found extension of the Builder machine, stateful trace validation (Trace_C13)",
+    mc=[dict(module="MC_Builder", cfg="MC_Builder_quick.cfg", tiers=("quick", "thorough"), workers=4, gen=False)],
+    trace="Trace_C13",
+    selftest_include_free=True,
+    drive=dict(quick=dict(n=800, size=3), thorough=dict(n=16000, size=6)),
+    nontrivial=lambda e: e["op"] not in ("set_file", "set_debug_id"),
+    corrupt=PROPS["C13"]["corrupt"],
+    rule="C13's seeded histories with b_set_source / b_strip_prefixes / add_token mixed in before into_sourcemap; distinct = distinct (call, state-relevant prefix); non-trivial = every call except set_file / set_debug_id",
+    assumptions=COMMON_ASSUMPTIONS,
+)
